@@ -19,6 +19,14 @@ Proof.
     intros e. destruct (Nat.eqb (a_ptr (snd e)) p); reflexivity.
 Qed.
 
+Lemma wf_poke_bal p v b : wf b -> wf (poke_bal p v b).
+Proof.
+  intros [Hn [Hnd H]]. unfold poke_bal. split; cbn.
+  - now rewrite map_length.
+  - split; auto. intros k. rewrite positions_map; auto.
+    intros e. destruct (Nat.eqb (a_ptr (snd e)) p); reflexivity.
+Qed.
+
 (** [dwf] only depends on the buffer, cache, heap and handles *)
 Lemma dwf_fields d d' : dwf d -> d_buf d' = d_buf d -> d_cache d' = d_cache d -> d_heap d' = d_heap d ->
   d_handles d' = d_handles d -> dwf d'.
@@ -55,7 +63,8 @@ Proof.
   destruct (get_state_ptr_ok d1 cid W1) as (cur & Hcur). rewrite Hcur. cbn.
   destruct W1 as (Wb1 & R1).
   destruct cur as [[[p|] [bal rt]]|]; eexists; (split; [reflexivity|]); split; try reflexivity.
-  - apply dwf_set_buf; [split; auto|]. apply wf_put. now apply wf_poke_root.
+  - eapply dwf_fields; [apply (dwf_set_buf d1 (sb_put (poke_root p trie' (d_buf d1)) (cid, mk_aval p bal trie')));
+                         [split; auto|apply wf_put; now apply wf_poke_root]|..]; reflexivity.
   - eapply dwf_fields; [apply (dwf_set_buf d1 (sb_put (d_buf d1) (cid, mk_aval (d_nptr d1) bal trie')));
                          [split; auto|now apply wf_put]|..]; reflexivity.
   - eapply dwf_fields; [apply (dwf_set_buf d1 (sb_put (d_buf d1) (cid, mk_aval (d_nptr d1) 0%N trie')));
@@ -134,6 +143,13 @@ Proof.
   - cbn in H. destruct (db_update_ok d W) as (d2 & H2 & W2). rewrite H in H2. inversion H2; subst. exact W2.
   - cbn in H. destruct (db_commit_ok d W) as (d2 & H2 & W2). rewrite H in H2. inversion H2; subst. exact W2.
   - cbn in H. inversion H; subst. apply dwf_new.
+  - (* OAAdd, even through a handle that aliases a buffered entry: keys are untouched *)
+    cbn [step] in H. apply bind_ok in H. destruct H as (ah & _ & H). inversion H; subst.
+    eapply dwf_fields; [apply (dwf_set_buf d (poke_bal (ah_ptr ah) (ah_bal ah + v) (d_buf d)) W);
+                        apply wf_poke_bal; apply W|..]; reflexivity.
+  - cbn [step] in H. apply bind_ok in H. destruct H as (ah & _ & H). inversion H; subst.
+    eapply dwf_fields; [apply (dwf_set_buf d (poke_bal (ah_ptr ah) (if (v <=? ah_bal ah)%N then (ah_bal ah - v)%N else (v - ah_bal ah)%N) (d_buf d)) W);
+                        apply wf_poke_bal; apply W|..]; reflexivity.
 Qed.
 
 (** index_wf at block level: every state reachable from a fresh StateDB by any operations
